@@ -110,6 +110,15 @@ def gen_cases(tier, rng):
             pts.add(max(0, blk + rng.randrange(-9, 10)))
         for n in sorted(pts):
             cases.append("d%d_%d 1 S:%s T:%d" % (j, n, ",".join(recs), n))
+    # (c3) a record that ends 0..13 bytes before a block end, a non-empty record after it, and the
+    # file cut at every byte of the last 9 bytes of that block and the first 9 of the next (a header
+    # of which only a part is there must never be taken for a record)
+    for r in range(0, 14):
+        l1 = B - r - H
+        for cut in range(B - 9, B + 10):
+            if tier == "quick" and (r + cut) % 3:
+                continue
+            cases.append("h%d_%d 1 S:%s,%s T:%d" % (r, cut, pat(rng, l1), pat(rng, rng.choice([1, 5, 40])), cut))
     # (d) writer interrupted between two fragments, later writer appends
     nd = 60 if tier == "quick" else 500
     for j in range(nd):
@@ -207,5 +216,5 @@ def classify(suite, case):
         return suite
     fam = {"a": "boundary-sweep", "b": "session-splits", "c": "truncate-every-byte",
            "d": "truncate-multiblock", "e": "interrupted-append", "f": "interrupted-twice",
-           "g": "interrupted-then-fragmented"}
+           "g": "interrupted-then-fragmented", "h": "cut-around-block-end"}
     return fam.get(case[0], "corpus")
